@@ -36,6 +36,17 @@ func (s *Sim) checkCommitted(b *blockObs, v *View, d *Dump) {
 	if !sum.Equal(v.SupplyAmt) {
 		s.violate("C17", "supply-vs-balances", "committed", fmt.Sprintf("height %d: recorded supply %s, sum of balances %s (difference %s)", h, v.SupplyAmt, sum, v.SupplyAmt.Sub(sum)))
 	}
+	// C32: a claim that was not proved before its expiration height is gone from that height on
+	for _, k := range sortedAddrs(v.Claims) {
+		c := v.Claims[k]
+		if c.ExpirationHeight > 0 && c.ExpirationHeight <= h {
+			s.violate("C32", "expired-claim-still-stored", "committed", fmt.Sprintf("height %d: the claim of %s for session height %d expired at height %d and is still pending", h, c.FromAddress, c.SessionHeader.SessionBlockHeight, c.ExpirationHeight))
+			break
+		}
+		if c.ExpirationHeight > 0 && c.ExpirationHeight <= h+2 {
+			s.res.Probe("claim_about_to_expire")
+		}
+	}
 	// C19: node pool = staked tokens of staked|unstaking nodes
 	nodeSum := sdk.ZeroInt()
 	for _, val := range v.Validators {
